@@ -16,6 +16,18 @@ NOTES = {
     "C09-3A": "NOT caught, deliberately (same ambiguity as C09-2A): assigning 0 to a new label registers it as a reported "
               "variable; bookkeeping stays a consistent upper bound (C14 holds) and the solver returns assignments over the "
               "reported variables, which the unchanged library also does for models with cancelled terms",
+    "C04-7A": "NOT caught, deliberately: the change makes the Matrix types accept keys with a negative label after the first position, "
+              "which the documentation says are rejected (KeyError); every documented input behaves as before, and C04 quantifies over "
+              "valid models only",
+    "C06-7B": "NOT caught, deliberately: an operand whose keys are not tuples ({'x1': 1}) used to be rejected (KeyError) and is now "
+              "accepted; no documented operand is affected",
+    "C19-7C": "NOT caught, deliberately: an initial_state that lacks a variable used to be rejected (KeyError) and is now silently "
+              "completed in the caller's dict; for every documented (complete) initial_state nothing changes",
+    "C16-7C": "caught by C14 (reduction ancilla collides with a mapped label once a variable's only term cancelled); C16's own comparison "
+              "of reduced forms is only made when the numeric and the substituted model have the same terms",
+    "C09-7B": "the change makes QUSO accept a key of three distinct variables; C05's clause (quadratic types must raise KeyError), caught by C05",
+    "C01-7B": "reduction-free spin forms lose a coefficient when one monomial is stored under two key orders; C04's clause (conversions "
+              "without reduction preserve the function), caught by C04 and C05",
     "C09-5C": "NOT caught, deliberately (the same change as C09-2A, written independently): Matrix models whose terms cancelled are "
               "enumerated over their reported variables, which is what the labelled types of the unchanged library do",
     "C09-2A": "NOT caught, deliberately: for a Matrix model whose terms cancelled the change returns assignments over the "
